@@ -229,7 +229,12 @@ def _read_parameter_type(
     parsed_values.param_types[param_name] = param_type
     param = parsed_values.parameters.get(param_name)
     if param is not None:
-        if param.annotation is None:
+        # The "type" directive takes precedence over the signature annotation,
+        # whether it is written before or after the "param" directive.
+        signature_annotation = None
+        with suppress(AttributeError, KeyError):
+            signature_annotation = docstring.parent.parameters[param_name].annotation  # type: ignore[union-attr]
+        if param.annotation is None or param.annotation is signature_annotation:
             param.annotation = param_type
         else:
             docstring_warning(docstring, 0, f"Duplicate parameter information for '{param_name}'")
